@@ -403,3 +403,15 @@ func (c *c7obj) GoodC7Wrapped(d int) int {
 	c.unlock()
 	return v
 }
+
+// GoodC7Cond locks and unlocks under the same condition.
+func (c *c7obj) GoodC7Cond(shared bool, d int) int {
+	if shared {
+		c.mu.Lock()
+	}
+	c.max = d
+	if shared {
+		c.mu.Unlock()
+	}
+	return d
+}
